@@ -153,6 +153,7 @@ struct StoreModel
 	std::vector<uint8_t> known ;
 	bool corrupted = false ;
 	int64_t dataoffset = 0 ;
+	bool ieee_replace = false ;	// a writer had the portable IEEE encoder switched on (SFC_TEST_IEEE_FLOAT_REPLACE)
 } ;
 
 struct Task
@@ -347,6 +348,14 @@ struct Exec
 			t.close_desc = true ;
 			os.in_lib = true ;
 			t.sf = sf_open_fd (t.fd, t.mode, &t.info, 1) ;
+		}
+		else if (route == "stdio" && t.mode != SFM_RDWR)
+		{	// the path "-": standard input or standard output, here redirected from / to the store as a shell would do it
+			os.in_lib = false ;
+			t.fd = os.bind_fd (t.mode == SFM_READ ? 0 : 1, file, t.mode == SFM_READ ? O_RDONLY : (O_WRONLY | O_CREAT | O_TRUNC)) ;
+			t.close_desc = true ;
+			os.in_lib = true ;
+			t.sf = sf_open ("-", t.mode, &t.info) ;
 		}
 		else	// fd, fdnc
 		{	os.in_lib = false ;
@@ -633,7 +642,21 @@ struct Exec
 								int64_t fr_i = k / ch, N = (int64_t) m.val.size () / ch ;
 								const char *disc = fr_i >= (N / B) * B && B > 1 ? "last_partial_block" : fr_i < B && B > 1 ? "first_block" : fr_i == 0 ? "first_frame" : fr_i == N - 1 ? "last_frame" : "interior" ;
 								snprintf (b, sizeof (b), "item %lld (frame %lld ch %lld of %lld frames): read 0x%llx, written 0x%llx", (long long) k, (long long) fr_i, (long long) (k % ch), (long long) N, (unsigned long long) have, (unsigned long long) m.val [k]) ;
-								viol (t, "data.model", std::string (disc) + (ch >= 256 ? "+ch>=256" : ""), b) ; break ;
+								std::string dsc = disc ;
+								if (m.ieee_replace || (d0.ok && d0.v [DG_IEEE_REPLACE]))
+								{	// portable IEEE codec in use: say what kind of value it got wrong
+									dsc = "ieee_replace" ;
+									uint64_t w = m.val [k] ;
+									bool dbl = T == T_DOUBLE ;
+									uint64_t ex = dbl ? (w >> 52) & 0x7ff : (w >> 23) & 0xff, man = dbl ? w & 0xfffffffffffffULL : w & 0x7fffff ;
+									if ((T == T_FLOAT || T == T_DOUBLE) && ex == 0 && man == 0) dsc += "+zero_sign" ;
+									else if ((T == T_FLOAT || T == T_DOUBLE) && ex == 0) dsc += "+denormal" ;
+									else if (T == T_FLOAT || T == T_DOUBLE)
+									{	double x ; if (dbl) memcpy (&x, &w, 8) ; else { uint32_t u = (uint32_t) w ; float fl ; memcpy (&fl, &u, 4) ; x = fl ; }
+										if (fabs (x) < 1e-30) dsc += "+below_1e-30" ;
+									}
+								}
+								viol (t, "data.model", dsc + (ch >= 256 ? "+ch>=256" : ""), b) ; break ;
 							}
 						}
 						if (t.stop) break ;
@@ -686,7 +709,9 @@ struct Exec
 		}
 		else { asked = fr ? n : n * ch ; bytes = n * ch * stype_size (T) ; unit = fr ? 1 : ch ; }
 		if (bytes > (64 << 20)) { r.skipped = true ; return ; }
+		if (plan.at ("cfg").geti ("gran", 1) > 1 && n % plan.at ("cfg").geti ("gran", 1)) { r.skipped = true ; return ; }		// see op_seek
 		StoreModel &m = sm [t.store] ;
+		if (d0.ok && d0.v [DG_IEEE_REPLACE]) m.ieee_replace = true ;
 		DataDesc dd = op.has ("data") ? data_desc_from (op.at ("data")) : t.data ;
 		int lz = 0 ;
 		if (T != T_RAW && t.fmt) { int l = lossless_lowzero (*t.fmt, T) ; lz = l > 0 ? l : 0 ; }
@@ -768,6 +793,14 @@ struct Exec
 		int64_t off = op.geti ("off", 0) ;
 		int whence = (int) op.geti ("whence", 0) ;
 		int flag = (int) op.geti ("flag", 0) ;
+		{	// block-aligned sessions (cfg.gran): a seek that would put the write pointer inside a block is not part of the plan space
+			// (it can only appear when the minimiser edits offsets); it is skipped so that a minimised plan stays inside the model
+			int64_t gran = plan.at ("cfg").geti ("gran", 1) ;
+			if (gran > 1 && t.mode == SFM_RDWR && flag != SFM_READ)
+			{	int64_t base = whence == SEEK_SET ? 0 : whence == SEEK_END ? t.frames : t.wr ;
+				if ((base + off) % gran) { r.skipped = true ; return ; }
+			}
+		}
 		r.api = "seek" ;
 		os.begin_op (t.id, (int) t.pc, "sf_seek", budget_for (t, 0)) ;
 		GUARD (t, r) ;
@@ -804,8 +837,9 @@ struct Exec
 		}
 		if (got == -1)
 		{	// permitted by the text (−1 with an error set); position becomes unknown to the model
+			// a read handle keeps reporting a position (what a zero-offset SEEK_CUR returns): the reads that follow are held to it
 			probe ("valid_seek_refused") ;
-			t.pos_known = false ;
+			if (t.mode != SFM_READ) t.pos_known = false ;
 			sync_pos (t, d1) ;
 			return ;
 		}
@@ -1173,6 +1207,16 @@ struct Exec
 		{	static const int modes [] = { SF_LOOP_FORWARD, SF_LOOP_BACKWARD, SF_LOOP_ALTERNATING, SF_LOOP_NONE } ;
 			i.loops [k].mode = modes [mix3 (key, st, 10 + k) % 3] ; i.loops [k].start = (uint32_t) (mix3 (key, st, 30 + k) % 50000) ;
 			i.loops [k].end = i.loops [k].start + 1 + (uint32_t) (mix3 (key, st, 50 + k) % 50000) ; i.loops [k].count = (uint32_t) (mix3 (key, st, 70 + k) % 100) ;
+			if (op.geti ("edge", 0))		// boundary values of the 32-bit fields, degenerate and unused loops
+				switch (mix3 (key, st, 90 + k) % 10)
+				{	case 0 : i.loops [k].start = 0 ; i.loops [k].end = 0 ; break ;
+					case 1 : i.loops [k].end = i.loops [k].start ; break ;
+					case 2 : i.loops [k].end = 0xFFFFFFFFu ; break ;
+					case 3 : i.loops [k].mode = SF_LOOP_NONE ; i.loops [k].start = 0 ; i.loops [k].end = 0 ; i.loops [k].count = 0 ; break ;
+					case 4 : i.loops [k].count = 0xFFFFFFFFu ; break ;
+					case 5 : i.loops [k].start = 0xFFFFFFFFu ; i.loops [k].end = 0xFFFFFFFFu ; break ;
+					default : break ;
+				}
 		}
 		void *ex = malloc (sizeof (i)) ; memcpy (ex, &i, sizeof (i)) ;
 		r.api = "cmd:SET_INSTRUMENT" ;
@@ -1456,6 +1500,28 @@ struct Exec
 					bool be = fam != 2 ;
 					if (fam == 4) for (int b = 0 ; b < 8 ; b++) ck.push_back ((uint8_t) ((uint64_t) len >> (8 * (7 - b)))) ;
 					else for (int b = 0 ; b < 4 ; b++) ck.push_back ((uint8_t) ((uint64_t) len >> (8 * (be ? 3 - b : b)))) ;
+					if (!strcmp (id, "LIST") && fam != 1 && fam != 4 && fill != 2)
+					{	// a LIST of a type the reader knows, holding sub-chunks it knows, some with lengths that do not add up
+						static const char *types [] = { "exif", "adtl", "INFO", "exif" } ;
+						static const char *subs [3][8] = { { "ever", "emnt", "emdl", "ecor", "etim", "erel", "eucm", "olym" }, { "labl", "note", "ltxt", "file", "labl", "note", "ltxt", "DATA" }, { "INAM", "ICMT", "IART", "ISFT", "ICRD", "IGNR", "ITRK", "IPRD" } } ;
+						uint64_t h = mix3 (key, 0x115 + k, (uint64_t) len) ;
+						int ty = (int) (h & 3) ; const char *tn = types [ty] ; int row = ty == 3 ? 0 : ty ;
+						std::vector<uint8_t> pay (tn, tn + 4) ;
+						for (int sc = 0, nsc = 1 + (int) ((h >> 2) & 3) ; sc < nsc ; sc++)
+						{	uint64_t hs = mix3 (key, 0x116 + k, (uint64_t) sc) ;
+							const char *sn = subs [row][hs & 7] ; pay.insert (pay.end (), sn, sn + 4) ;
+							uint32_t sl = (uint32_t) ((hs >> 3) % 40), stated = sl ;
+							switch ((hs >> 12) & 7) { case 0 : stated = sl + 1 ; break ; case 1 : stated = 0xffffffffu ; break ; case 2 : stated = 4095 ; break ; case 3 : stated = sl ? sl - 1 : 0 ; break ; default : break ; }
+							for (int b = 0 ; b < 4 ; b++) pay.push_back ((uint8_t) (stated >> (8 * (be ? 3 - b : b)))) ;
+							for (uint32_t b = 0 ; b < sl ; b++) pay.push_back (((hs >> 16) & 1) && b + 1 < sl ? (uint8_t) ('a' + b % 26) : (uint8_t) mix3 (key, 0x117 + k, (uint64_t) (sc * 64 + b))) ;
+							if (sl & 1) pay.push_back (0) ;
+						}
+						len = (int64_t) pay.size () ; ck.resize (4) ;
+						for (int b = 0 ; b < 4 ; b++) ck.push_back ((uint8_t) ((uint64_t) len >> (8 * (be ? 3 - b : b)))) ;
+						ck.insert (ck.end (), pay.begin (), pay.end ()) ;
+						probe ("corrupt:inject_list") ;
+					}
+					else
 					for (int64_t b = 0 ; b < len ; b++) ck.push_back (fill == 0 ? (uint8_t) mix3 (key, 0xdd0 + k, (uint64_t) b) : fill == 1 ? 0 : fill == 2 ? 0xff : (uint8_t) (b < 2 ? 0x7f : 0)) ;
 					if (fam != 4 && (len & 1)) ck.push_back (0) ;
 					// before the chunk chosen by "chunk" (the audio chunk is usually last) or at the very end
@@ -1465,6 +1531,29 @@ struct Exec
 					{	int64_t total = rd32 (4, be) + (int64_t) ck.size () ;
 						for (int b = 0 ; b < 4 ; b++) d [4 + b] = (uint8_t) ((uint64_t) total >> (8 * (be ? 3 - b : b))) ;
 					}
+				}
+			}
+			else if (kind == "id3_prefix")
+			{	// ID3v2 header: "ID3" version revision flags, then the tag length as four 7-bit bytes ("lie" shifts the stated length)
+				int64_t n = e.geti ("len", 0), stated = std::max<int64_t> (0, n + e.geti ("lie", 0)) & 0x0fffffff ;
+				std::vector<uint8_t> tag = { 'I', 'D', '3', (uint8_t) e.geti ("ver", 3), 0, (uint8_t) e.geti ("flags", 0),
+					(uint8_t) ((stated >> 21) & 0x7f), (uint8_t) ((stated >> 14) & 0x7f), (uint8_t) ((stated >> 7) & 0x7f), (uint8_t) (stated & 0x7f) } ;
+				for (int64_t b = 0 ; b < n ; b++) tag.push_back ((uint8_t) mix3 (key, 0x1d3 + k, (uint64_t) b)) ;
+				d.insert (d.begin (), tag.begin (), tag.end ()) ;
+			}
+			else if (kind == "wav_broken_fmt")
+			{	// PCM tag with a bit width that contradicts the block alignment (24 bits in 4-byte slots and relatives)
+				bool be = sz >= 4 && !memcmp (d.data (), "RIFX", 4) ;
+				for (int64_t at = 12 ; at + 8 + 16 <= sz ; )
+				{	uint32_t len = 0 ; for (int b = 0 ; b < 4 ; b++) len |= (uint32_t) d [at + 4 + b] << (8 * (be ? 3 - b : b)) ;
+					if (!memcmp (&d [at], "fmt ", 4))
+					{	auto put16 = [&] (int64_t o, int v) { d [at + 8 + o + (be ? 1 : 0)] = (uint8_t) v ; d [at + 8 + o + (be ? 0 : 1)] = (uint8_t) (v >> 8) ; } ;
+						int chn = d [at + 8 + 2 + (be ? 1 : 0)] | d [at + 8 + 2 + (be ? 0 : 1)] << 8 ;
+						put16 (0, 1) ; put16 (12, (int) e.geti ("mult", 4) * chn) ; put16 (14, (int) e.geti ("bits", 24)) ;
+						break ;
+					}
+					if (len > (uint32_t) sz) break ;
+					at += 8 + len + (len & 1) ;
 				}
 			}
 			else if (kind == "truncate") { if (sz) d.resize ((size_t) where (e.geti ("len", 0), e.gets ("region", "any"))) ; }
@@ -1606,7 +1695,7 @@ struct Exec
 		int T = stype_from (op.gets ("T", plan.at ("cfg").gets ("T", "short"))) ; if (T == T_RAW) T = T_SHORT ;
 		int ch = t.ch > 0 ? t.ch : 1 ;
 		bool applicable = true ;
-		int64_t ret = 0 ; bool expect_zero = true ; bool ret_is_code = false ; int64_t expect_ret = 0 ;
+		int64_t ret = 0 ; bool expect_zero = true ; bool ret_is_code = false ; int64_t expect_ret = 0 ; int64_t raw_bw = 1 ;
 		// decide applicability before touching the library
 		if (kind == "read_wrong_mode") applicable = t.mode == SFM_WRITE ;
 		else if (kind == "write_wrong_mode") applicable = t.mode == SFM_READ ;
@@ -1619,6 +1708,17 @@ struct Exec
 		else if (kind == "seek_beyond_write") applicable = t.seekable && t.mode != SFM_READ ;
 		else if (kind == "seek_nonseekable") applicable = !t.seekable ;
 		else if (kind == "setstr_read_handle") applicable = t.mode == SFM_READ ;
+		else if (kind == "raw_read_misaligned" || kind == "raw_write_misaligned")
+		{	// byte counts that are not a whole number of frames (of channels, for encodings without a fixed sample width)
+			Digest dd = digest (t) ;
+			raw_bw = dd.ok && dd.v [DG_BYTEWIDTH] > 0 ? dd.v [DG_BYTEWIDTH] : 1 ;
+			applicable = dd.ok && ch * raw_bw >= 2 && (kind == "raw_read_misaligned" ? (t.mode != SFM_WRITE && dd.v [DG_READ_CURRENT] < dd.v [DG_FRAMES]) : t.mode != SFM_READ) ;
+		}
+		else if (kind == "setmeta_invalid")
+		{	int var = (int) (op.geti ("n", 0) % 8) ;
+			bool wavlike = t.fmt && (t.fmt->major == SF_FORMAT_WAV || t.fmt->major == SF_FORMAT_RF64 || (var >= 3 && t.fmt->major == SF_FORMAT_WAVEX)) ;
+			applicable = t.mode != SFM_READ && (var >= 6 || wavlike) ;
+		}
 		else if (kind == "setstr_bad_type" || kind == "setstr_null" || kind == "setstr_empty") applicable = t.mode != SFM_READ ;
 		else if (kind == "cmd_after_data")
 		{	// "after data" means after audio has been handed to the library, not merely a write pointer moved by a seek
@@ -1629,6 +1729,7 @@ struct Exec
 		Snap s0 = snap (t) ;
 		int64_t n = op.geti ("n", 4) ; if (n < 1) n = 1 ;
 		size_t bytes = (size_t) (n * ch + ch) * 8 ;
+		if (kind == "setmeta_invalid") bytes = sizeof (SF_BROADCAST_INFO) + sizeof (SF_CART_INFO) + 40000 ;
 		uint8_t *buf = (uint8_t *) malloc (bytes) ; memset (buf, 0x5A, bytes) ;
 		uint64_t bh = fnv1a (buf, bytes) ;
 		r.api = "bad:" + kind ;
@@ -1649,6 +1750,29 @@ struct Exec
 		else if (kind == "write_wrong_mode") ret = wr (fr ? n : n * ch, fr) ;
 		else if (kind == "read_misaligned") ret = rd (n * ch + 1, false) ;
 		else if (kind == "write_misaligned") ret = wr (n * ch + 1, false) ;
+		else if (kind == "raw_read_misaligned") ret = sf_read_raw (t.sf, buf, n * ch * raw_bw + 1) ;
+		else if (kind == "raw_write_misaligned") ret = sf_write_raw (t.sf, buf, n * ch * raw_bw + 1) ;
+		else if (kind == "setmeta_invalid")
+		{	// metadata setters with a size that is too small, inconsistent with the size field inside, or beyond the library's limit
+			int var = (int) (op.geti ("n", 0) % 8) ;
+			memset (buf, 0, bytes) ;
+			if (var < 3)
+			{	SF_CART_INFO *ci = (SF_CART_INFO *) buf ; size_t base = offsetof (SF_CART_INFO, tag_text) ;
+				memcpy (ci->version, "0101", 4) ; snprintf (ci->title, sizeof (ci->title), "title") ;
+				int ds = var == 0 ? (int) (base + 16384) : var == 1 ? 100 : (int) (base + 64) ;
+				ci->tag_text_size = var == 0 ? 16384 : var == 1 ? 0 : 1000 ;
+				ret = sf_command (t.sf, SFC_SET_CART_INFO, buf, ds) ;
+			}
+			else if (var < 6)
+			{	SF_BROADCAST_INFO *bi = (SF_BROADCAST_INFO *) buf ; size_t base = offsetof (SF_BROADCAST_INFO, coding_history) ;
+				snprintf (bi->description, sizeof (bi->description), "description") ;
+				int ds = var == 3 ? 100 : var == 4 ? (int) (base + 64) : (int) (base + 16384) ;
+				bi->coding_history_size = var == 3 ? 0 : var == 4 ? 1000 : 16384 ;
+				ret = sf_command (t.sf, SFC_SET_BROADCAST_INFO, buf, ds) ;
+			}
+			else if (var == 6) ret = sf_command (t.sf, SFC_SET_INSTRUMENT, buf, (int) sizeof (SF_INSTRUMENT) - 1) ;
+			else ret = sf_command (t.sf, SFC_SET_CUE, buf, 2) ;
+		}
 		else if (kind == "read_negative") ret = rd (-n, fr) ;
 		else if (kind == "write_negative") ret = wr (-n, fr) ;
 		else if (kind == "seek_bad_whence") { ret = sf_seek (t.sf, 0, (int) op.geti ("whence", 7)) ; expect_zero = false ; expect_ret = -1 ; }
